@@ -49,7 +49,7 @@ void __real_free(void *p){ free(p); }
 
 #define MAXT 4
 #define MAXD (1<<18)          /* max recorded decisions per schedule */
-#define MAXSTEP 40
+#define MAXSTEP 48
 
 /* ------------------------------------------------------------------ streams (read-only after start-up) */
 typedef struct { unsigned char *data; long len; int npk; unsigned char **pk; long *pkn; ogg_int64_t *gran; int have; } stream_t;
@@ -90,12 +90,13 @@ typedef struct tctx {
   unsigned lcg;
   uint64_t stepdig[MAXSTEP]; char stepname[MAXSTEP][12];
   long nonzero;              /* non-zero PCM samples / packet bytes observed */
+  long padded;               /* packets ending in >=16 zero bytes (bitrate-floor padding) */
   int undef;                 /* valgrind: an observed buffer had undefined bytes */
 } tctx;
 static __thread tctx *me=0;
 
 /* ------------------------------------------------------------------ shared result block (child -> parent) */
-typedef struct { h128 dig; long pc[4]; long napi,nsteps,nonzero; int fenv_bad; char fenv_where[48]; uint64_t stepdig[MAXSTEP]; char stepname[MAXSTEP][12]; } thres;
+typedef struct { h128 dig; long pc[4]; long napi,nsteps,nonzero,padded; int fenv_bad; char fenv_where[48]; uint64_t stepdig[MAXSTEP]; char stepname[MAXSTEP][12]; } thres;
 typedef struct {
   int done, err; char errmsg[160];
   int n;
@@ -196,6 +197,7 @@ static void OBS_B(const void *p,size_t n){
 static void OBS_PKT(const ogg_packet *op){
   long i; OBS_B(op->packet,op->bytes); OBS_I(op->b_o_s); OBS_I(op->e_o_s); OBS_I(op->granulepos); OBS_I(op->packetno);
   for(i=0;i<op->bytes;i++)if(op->packet[i])me->nonzero++;
+  { long z=0; for(i=op->bytes-1;i>=0&&!op->packet[i];i--)z++; if(z>=16)me->padded++; }
 }
 static void OBS_PCM(float **pcm,int ch,long n){
   int c; long i;
@@ -207,7 +209,7 @@ static float sig(tctx *T,int k,long t,long rate){
   T->lcg=T->lcg*1103515245u+12345u;
   return 0.35f*sinf(6.2831853f*(330.f+90.f*k)*(float)t/(float)rate)+0.2f*(((T->lcg>>8)&0xffff)/32768.f-1.f)+((t%900)==(450+17*k)?0.7f:0.f);
 }
-typedef struct { int ch; long rate; int mode; float q; long mx,nom,mn; int rounds; int chunk; } enc_cfg;   /* mode 0: vbr, 1: managed init, 2: 3-step managed setup + ctl */
+typedef struct { int ch; long rate; int mode; float q; long mx,nom,mn; int rounds; int chunk; long quiet_after; long resv_bits; } enc_cfg;   /* mode 0: vbr, 1: managed init, 2: 3-step managed setup + ctl, 3: managed with hard minimum and a small reservoir (RATEMANAGE2_SET); input is digital silence from sample quiet_after on (0: never) */
 
 static void body_enc(tctx *T,const enc_cfg *c){
   vorbis_info vi; vorbis_comment vc; vorbis_dsp_state vd; vorbis_block vb; ogg_packet op,h1,h2,h3; int r=0,round; long done=0;
@@ -215,11 +217,19 @@ static void body_enc(tctx *T,const enc_cfg *c){
   API(vorbis_info_init(&vi));
   if(c->mode==0)API(r=vorbis_encode_init_vbr(&vi,c->ch,c->rate,c->q));
   else if(c->mode==1)API(r=vorbis_encode_init(&vi,c->ch,c->rate,c->mx,c->nom,c->mn));
-  else{
+  else if(c->mode==2){
     API(r=vorbis_encode_setup_managed(&vi,c->ch,c->rate,c->mx,c->nom,c->mn)); OBS_I(r);
     if(!r){ double lp=3.5; struct ovectl_ratemanage2_arg ai; memset(&ai,0,sizeof(ai));
       API(r=vorbis_encode_ctl(&vi,OV_ECTL_LOWPASS_SET,&lp)); OBS_I(r);
       API(r=vorbis_encode_ctl(&vi,OV_ECTL_RATEMANAGE2_GET,&ai)); OBS_I(r); OBS_I(ai.management_active); OBS_I(ai.bitrate_limit_min_kbps); OBS_I(ai.bitrate_limit_max_kbps);
+      API(r=vorbis_encode_setup_init(&vi)); }
+  }
+  else{
+    API(r=vorbis_encode_setup_managed(&vi,c->ch,c->rate,c->mx,c->nom,c->mn)); OBS_I(r);
+    if(!r){ struct ovectl_ratemanage2_arg ai; memset(&ai,0,sizeof(ai));
+      API(r=vorbis_encode_ctl(&vi,OV_ECTL_RATEMANAGE2_GET,&ai)); OBS_I(r);
+      ai.bitrate_limit_reservoir_bits=c->resv_bits; ai.bitrate_limit_reservoir_bias=0.;
+      API(r=vorbis_encode_ctl(&vi,OV_ECTL_RATEMANAGE2_SET,&ai)); OBS_I(r);
       API(r=vorbis_encode_setup_init(&vi)); }
   }
   OBS_I(r);
@@ -239,7 +249,7 @@ static void body_enc(tctx *T,const enc_cfg *c){
     if(!last){
       float **b=0; long j; int k;
       API(b=vorbis_analysis_buffer(&vd,c->chunk));
-      for(j=0;j<c->chunk;j++)for(k=0;k<c->ch;k++)b[k][j]=sig(T,k,done+j,c->rate);
+      for(j=0;j<c->chunk;j++)for(k=0;k<c->ch;k++){ float v=sig(T,k,done+j,c->rate); b[k][j]=(c->quiet_after&&done+j>=c->quiet_after)?0.f:v; }
       API(r=vorbis_analysis_wrote(&vd,c->chunk)); OBS_I(r); done+=c->chunk;
     }else{ API(r=vorbis_analysis_wrote(&vd,0)); OBS_I(r); }
     STEP("drain");
@@ -343,13 +353,14 @@ static void body_vf(tctx *T,const vf_cfg *c){
   API(r=ov_clear(&vf)); OBS_I(r); OBS_I(m.nclose); OBS_I(m.nread); OBS_I(m.nseek);
 }
 
-enum { B_ENCA=0,B_ENCB,B_ENCC,B_ENCD,B_DECA,B_DECB,B_DECF,B_DECH,B_DECL,B_DECR,B_VFA,B_VFB,B_VFF,B_VFC,B_VFL,B_VFR,NBODY };
-static const char *g_bname[NBODY]={"ENCA","ENCB","ENCC","ENCD","DECA","DECB","DECF","DECH","DECL","DECR","VFA","VFB","VFF","VFC","VFL","VFR"};
-static const enc_cfg g_enc[4]={
-  {2,44100,0,0.4f,0,0,0,3,1024},            /* ENCA stereo 44.1k VBR */
-  {1,8000,2,0,-1,12000,-1,3,1024},          /* ENCB mono 8k, 3-step managed setup + ctl */
-  {6,44100,0,0.3f,0,0,0,2,1024},            /* ENCC 5.1 VBR */
-  {2,22050,1,0,40000,32000,24000,3,1024}    /* ENCD stereo 22k managed with hard limits */
+enum { B_ENCA=0,B_ENCB,B_ENCC,B_ENCD,B_ENCM,B_DECA,B_DECB,B_DECF,B_DECH,B_DECL,B_DECR,B_VFA,B_VFB,B_VFF,B_VFC,B_VFL,B_VFR,NBODY };
+static const char *g_bname[NBODY]={"ENCA","ENCB","ENCC","ENCD","ENCM","DECA","DECB","DECF","DECH","DECL","DECR","VFA","VFB","VFF","VFC","VFL","VFR"};
+static const enc_cfg g_enc[5]={
+  {2,44100,0,0.4f,0,0,0,3,1024,0,0},            /* ENCA stereo 44.1k VBR */
+  {1,8000,2,0,-1,12000,-1,3,1024,0,0},          /* ENCB mono 8k, 3-step managed setup + ctl */
+  {6,44100,0,0.3f,0,0,0,2,1024,0,0},            /* ENCC 5.1 VBR */
+  {2,22050,1,0,40000,32000,24000,3,1024,0,0},   /* ENCD stereo 22k managed with hard limits */
+  {2,44100,3,0,-1,128000,96000,8,4096,4096,8000}   /* ENCM stereo 44.1k, hard MINIMUM 96 kbit/s, 8000-bit reservoir, tone then digital silence: packets are padded up to the floor */
 };
 static const dec_cfg g_dec[6]={ {ST_S1,5,2,0},{ST_S2,5,-1,0},{ST_F0,5,1,0},{ST_S2,4,-1,1},{ST_PL,5,-1,0},{ST_PR,5,3,0} };
 static const vf_cfg g_vf[6]={ {ST_S1,0,5,0},{ST_S2,1,9,2},{ST_F0,1,7,1},{ST_CH,0,11,0},{ST_PL,1,6,0},{ST_PR,0,10,2} };
@@ -357,14 +368,14 @@ static int body_stream(int b){ if(b>=B_DECA&&b<=B_DECR)return g_dec[b-B_DECA].st
 static int body_id(const char *n){ int i; for(i=0;i<NBODY;i++)if(!strcmp(n,g_bname[i]))return i; return -1; }
 static void run_body(tctx *T){
   int b=T->body;
-  if(b<=B_ENCD)body_enc(T,&g_enc[b]);
+  if(b<=B_ENCM)body_enc(T,&g_enc[b]);
   else if(b<=B_DECR)body_dec(T,&g_dec[b-B_DECA]);
   else body_vf(T,&g_vf[b-B_VFA]);
   step_close(T);
 }
 static void tctx_init(tctx *T,int tid,int body){ memset(T,0,sizeof(*T)); T->tid=tid; T->body=body; T->fenv_bad=-1; T->lcg=4711u+97u*(unsigned)body; h_init(&T->dig); }
 static void tctx_export(const tctx *T,thres *o){
-  o->dig=T->dig; memcpy(o->pc,T->pc,sizeof(o->pc)); o->napi=T->napi; o->nsteps=T->nsteps; o->nonzero=T->nonzero; o->fenv_bad=T->fenv_bad;
+  o->dig=T->dig; memcpy(o->pc,T->pc,sizeof(o->pc)); o->napi=T->napi; o->nsteps=T->nsteps; o->nonzero=T->nonzero; o->padded=T->padded; o->fenv_bad=T->fenv_bad;
   memcpy(o->fenv_where,T->fenv_where,sizeof(o->fenv_where)); memcpy(o->stepdig,T->stepdig,sizeof(o->stepdig)); memcpy(o->stepname,T->stepname,sizeof(o->stepname));
 }
 
@@ -564,7 +575,7 @@ static void do_case(long idx,char *line){
     g_solo_have[b[0]]=0; if(solo_get(b[0])){ printf("%ld SOLOFAIL body=%s\n",idx,g_bname[b[0]]); return; }
     det=!memcmp(&first.dig,&g_solo[b[0]].dig,sizeof(h128))&&first.napi==g_solo[b[0]].napi&&first.pc[3]==g_solo[b[0]].pc[3];
     h_hex(&first.dig,hx);
-    printf("%ld ok body=%s dig=%s steps=%ld api=%ld allocs=%ld nonzero=%ld fenv=%d det=%d\n",idx,g_bname[b[0]],hx,first.nsteps,first.napi,first.pc[3]-first.pc[2],first.nonzero,first.fenv_bad,det);
+    printf("%ld ok body=%s dig=%s steps=%ld api=%ld allocs=%ld nonzero=%ld padded=%ld fenv=%d det=%d\n",idx,g_bname[b[0]],hx,first.nsteps,first.napi,first.pc[3]-first.pc[2],first.nonzero,first.padded,first.fenv_bad,det);
     return;
   }
   if(!strcmp(kind,"fill")){
